@@ -121,6 +121,12 @@ pub trait TrOps: Trait {
     fn lazy_remove<M: MemBuilder>(_dst: &mut AnyVec<Self, M>, _h: &Remove<'_, Self, M>) { unreachable!() }
     fn lazy_swap_remove<M: MemBuilder>(_dst: &mut AnyVec<Self, M>, _h: &SwapRemove<'_, Self, M>) { unreachable!() }
     fn lazy_element<M: MemBuilder>(_dst: &mut AnyVec<Self, M>, _e: &Element<'_, Self, M>) { unreachable!() }
+    /// src.at(idx).lazy_clone()^depth .downcast::<T>()
+    fn down_lazy_at<M: MemBuilder, T: 'static>(_src: &AnyVec<Self, M>, _idx: usize, _depth: usize) -> T { unreachable!() }
+    fn down_lazy_pop<M: MemBuilder, T: 'static>(_h: &Pop<'_, Self, M>) -> T { unreachable!() }
+    fn down_lazy_remove<M: MemBuilder, T: 'static>(_h: &Remove<'_, Self, M>) -> T { unreachable!() }
+    fn down_lazy_swap_remove<M: MemBuilder, T: 'static>(_h: &SwapRemove<'_, Self, M>) -> T { unreachable!() }
+    fn down_lazy_element<M: MemBuilder, T: 'static>(_e: &Element<'_, Self, M>) -> T { unreachable!() }
     /// v.splice(range, lazy clones of src[i mod len]) with the instrumented iterator
     fn splice_lazy<M: MemBuilder + 'static, R>(
         _v: &mut AnyVec<Self, M>, _src: &AnyVec<Self, M>, _n: usize, _claimed: usize,
@@ -159,6 +165,19 @@ macro_rules! cloneable_trops {
             fn lazy_remove<M: MemBuilder>(dst: &mut AnyVec<Self, M>, h: &Remove<'_, Self, M>) { lib!(dst.push(h.lazy_clone())) }
             fn lazy_swap_remove<M: MemBuilder>(dst: &mut AnyVec<Self, M>, h: &SwapRemove<'_, Self, M>) { lib!(dst.push(h.lazy_clone())) }
             fn lazy_element<M: MemBuilder>(dst: &mut AnyVec<Self, M>, e: &Element<'_, Self, M>) { lib!(dst.push(e.lazy_clone())) }
+            fn down_lazy_at<M: MemBuilder, T: 'static>(src: &AnyVec<Self, M>, idx: usize, depth: usize) -> T {
+                let e = src.at(idx);
+                let l1 = e.lazy_clone();
+                match depth {
+                    1 => lib!(l1.downcast::<T>()).expect("downcast of a lazy clone failed"),
+                    2 => { let l2 = l1.lazy_clone(); lib!(l2.downcast::<T>()).expect("downcast of a lazy clone failed") }
+                    _ => { let l2 = l1.lazy_clone(); let l3 = l2.lazy_clone(); lib!(l3.downcast::<T>()).expect("downcast of a lazy clone failed") }
+                }
+            }
+            fn down_lazy_pop<M: MemBuilder, T: 'static>(h: &Pop<'_, Self, M>) -> T { lib!(h.lazy_clone().downcast::<T>()).expect("downcast of a lazy clone failed") }
+            fn down_lazy_remove<M: MemBuilder, T: 'static>(h: &Remove<'_, Self, M>) -> T { lib!(h.lazy_clone().downcast::<T>()).expect("downcast of a lazy clone failed") }
+            fn down_lazy_swap_remove<M: MemBuilder, T: 'static>(h: &SwapRemove<'_, Self, M>) -> T { lib!(h.lazy_clone().downcast::<T>()).expect("downcast of a lazy clone failed") }
+            fn down_lazy_element<M: MemBuilder, T: 'static>(e: &Element<'_, Self, M>) -> T { lib!(e.lazy_clone().downcast::<T>()).expect("downcast of a lazy clone failed") }
             fn splice_lazy<M: MemBuilder + 'static, R>(
                 v: &mut AnyVec<Self, M>, src: &AnyVec<Self, M>, n: usize, claimed: usize,
                 sb: Bound, eb: Bound,
@@ -291,15 +310,19 @@ fn tok_of_bytes<T: Elem>(p: *const u8) -> u64 {
 /// Uniform access to the three removal handles.
 pub trait Handle<Tr: ?Sized + TrOps, M: BackOps>: AnyValueMut + Sized {
     fn lazy_into(&self, dst: &mut AnyVec<Tr, M>);
+    fn lazy_down<T: 'static>(&self) -> T;
 }
 impl<'a, Tr: ?Sized + TrOps, M: BackOps> Handle<Tr, M> for Pop<'a, Tr, M> {
     fn lazy_into(&self, dst: &mut AnyVec<Tr, M>) { Tr::lazy_pop(dst, self) }
+    fn lazy_down<T: 'static>(&self) -> T { Tr::down_lazy_pop::<M, T>(self) }
 }
 impl<'a, Tr: ?Sized + TrOps, M: BackOps> Handle<Tr, M> for Remove<'a, Tr, M> {
     fn lazy_into(&self, dst: &mut AnyVec<Tr, M>) { Tr::lazy_remove(dst, self) }
+    fn lazy_down<T: 'static>(&self) -> T { Tr::down_lazy_remove::<M, T>(self) }
 }
 impl<'a, Tr: ?Sized + TrOps, M: BackOps> Handle<Tr, M> for SwapRemove<'a, Tr, M> {
     fn lazy_into(&self, dst: &mut AnyVec<Tr, M>) { Tr::lazy_swap_remove(dst, self) }
+    fn lazy_down<T: 'static>(&self) -> T { Tr::down_lazy_swap_remove::<M, T>(self) }
 }
 
 impl<Tr: ?Sized + TrOps, M: BackOps> World<Tr, M> {
@@ -349,6 +372,14 @@ impl<Tr: ?Sized + TrOps, M: BackOps> World<Tr, M> {
                 }
                 Self::sink::<T, H>(h, k2, get_dst, ret);
             }
+            Sink::LazyDown(n, k2) => {
+                for _ in 0..*n {
+                    let x: T = h.lazy_down::<T>();
+                    ret.push(x.token());
+                    drop(x);
+                }
+                Self::sink::<T, H>(h, k2, get_dst, ret);
+            }
         }
     }
 
@@ -382,6 +413,14 @@ impl<Tr: ?Sized + TrOps, M: BackOps> World<Tr, M> {
                 let dst = unsafe { &mut *get_dst(*d) };
                 for _ in 0..*n {
                     Tr::lazy_element(dst, &e);
+                }
+                Self::item_sink::<T>(e, k2, get_dst, ret);
+            }
+            Sink::LazyDown(n, k2) => {
+                for _ in 0..*n {
+                    let x: T = Tr::down_lazy_element::<M, T>(&e);
+                    ret.push(x.token());
+                    drop(x);
                 }
                 Self::item_sink::<T>(e, k2, get_dst, ret);
             }
@@ -954,6 +993,41 @@ impl<Tr: ?Sized + TrOps, M: BackOps> World<Tr, M> {
                 }
                 crate::elem::untracked(|| unsafe { System.dealloc(buf, lay) });
                 ret.push(worst as u64);
+            }
+            Op::IterNth(kind, v, pat) => {
+                let vv = self.v(*v);
+                fn hint<I: ExactSizeIterator>(it: &I) -> u64 {
+                    let (lo, hi) = it.size_hint();
+                    if hi != Some(lo) || it.len() != lo { u64::MAX - 7 } else { lo as u64 }
+                }
+                macro_rules! run_iter {
+                    ($it:expr, $tok:expr) => {{
+                        let mut it = $it;
+                        ret.push(hint(&it));
+                        for (front, n) in pat {
+                            let x = if *front { lib!(it.nth(*n)) } else { lib!(it.nth_back(*n)) };
+                            match x {
+                                None => { ret.push(0); ret.push(0); }
+                                Some(e) => { ret.push(1); ret.push($tok(e)); }
+                            }
+                            ret.push(hint(&it));
+                        }
+                    }};
+                }
+                match kind {
+                    IterKind::Ref => run_iter!(lib!(vv.iter()), |e: any_vec::element::ElementRef<'_, Tr, M>| e.downcast_ref::<T>().unwrap().token()),
+                    IterKind::Mut => run_iter!(lib!(vv.iter_mut()), |e: any_vec::element::ElementMut<'_, Tr, M>| e.downcast_ref::<T>().unwrap().token()),
+                    IterKind::TRef => run_iter!(lib!(vv.downcast_ref::<T>().unwrap().iter()), |e: &T| e.token()),
+                    IterKind::TMut => run_iter!(lib!(vv.downcast_mut::<T>().unwrap().iter_mut()), |e: &mut T| e.token()),
+                }
+            }
+            Op::LazyDown(depth, v, idx) => {
+                assert!(Tr::CL, "lazy clone needs a Cloneable constraint set");
+                let vv = self.v(*v);
+                assert!(*idx < vv.len(), "Index out of range!");
+                let x: T = Tr::down_lazy_at::<M, T>(vv, *idx, *depth);
+                ret.push(x.token());
+                drop(x);
             }
         }
         StepOut { out, ret }
